@@ -64,7 +64,8 @@ def make_text(rng, tree_ids, tree_pids, n_extra=0, with_tail=False):
         toks = [str(i) if rng.random() < 0.9 else "0" + str(i), str(ty)] + [f[0] for f in fl[:4]] + [str(p)] + [f[0] for f in fl[4:]]
         tail = ""
         if with_tail and rng.random() < 0.5:
-            tail = ws(rng) + " ".join(str(rng.randint(0, 9)) for _ in range(rng.randint(1, 3)))
+            # fields beyond the requested columns: any numbers of the line grammar (integers, decimals, exponent spellings)
+            tail = ws(rng) + " ".join((str(rng.randint(0, 9)) if rng.random() < 0.5 else spell_float(rng)[0]) for _ in range(rng.randint(1, 3)))
         line = ws(rng, False) + ws(rng).join(toks) + tail + ws(rng, False)
         lines.append(line + eol)
         rows.append({"id": i, "type": ty, "x": fl[0][1], "y": fl[1][1], "z": fl[2][1], "r": fl[3][1], "pid": p,
@@ -260,7 +261,13 @@ class Read(Suite):
                    "pid": -1 if r["pid"] == -1 else r["pid"] - shift}
             for c, v in exp.items():
                 g = df[c][k]
-                same = (g == v) if c in ("id", "type", "pid") else (abs(g - v) <= 1e-6 * max(1.0, abs(v)) if res["via"] == "population" else g == v)
+                if c in ("id", "type", "pid") or res["via"] != "population":
+                    same = g == v
+                else:
+                    # a tree stores float32: compare with the value as float32 holds it (beyond 3.4e38 that is inf, below 1e-45 it is 0)
+                    with np.errstate(over="ignore"):
+                        v32 = float(np.float32(v))
+                    same = (g == v32) or abs(g - v32) <= 1e-6 * max(1.0, abs(v32))
                 if not same:
                     out.append(("field-value", f"row {k} field {c}: read {g}, file says {v} (shift {shift})"))
                     return out
